@@ -1,6 +1,7 @@
 import Duckling.Model.Expr
 import Duckling.Lemmas.Prec
 import Duckling.Lemmas.RBasic
+import Duckling.Lemmas.LexDigits
 /-
   C04 — expressions evaluate with the documented precedence and typing.
 
@@ -18,8 +19,14 @@ import Duckling.Lemmas.RBasic
   * `C04_comparisons`           the six comparisons on integers;
   * `C04_integral_is_int`       an integral float is normalised to an integer at every parenthesis level;
   * `C04_not`                   `!( )` yields the negated truth value of what the parenthesised text evaluates to.
-  Stage B (the character scanner recognises every rendering of an expression) is validated by the
-  correspondence only (DESIGN.md C04) — `partial` in that respect.
+  Stage B (the character scanner), first theorems — the scanner is a character-level state machine with back-tracking
+  (`Lexer.lean`); proved by induction over its character loop:
+  * `C04_lex_digits`            a non-empty string of decimal digits of ANY length is scanned into exactly one number token carrying
+                                 that text, whatever variable names are in scope (the string class declines the first digit, the number
+                                 class takes it, every further digit extends the token, the end of the text closes it);
+  * `C04_tokenize_digits`       and evaluates to the integer the digits denote (leading zeros included) — `Tokenizer.tokenize` end to end.
+  That the scanner recognises every rendering of a compound expression (operators, blanks, parentheses, strings, names) is validated
+  by the correspondence only (DESIGN.md C04) — `partial` in that respect.
 -/
 namespace Duckling.Props.C04
 open Duckling
@@ -112,5 +119,11 @@ theorem C04_not (vars : VarEnv) (f : Nat) (s : Str) :
   | cerr k => rfl
   | crash e => rfl
   | oom w => rfl
+
+theorem C04_lex_digits (vars : List Str) (ds : Str) (hne : ds ≠ []) (hall : ds.all isDigitC = true) :
+    lex vars ds = .ok [⟨.num, ds, false⟩] := lex_digits vars ds hne hall
+
+theorem C04_tokenize_digits (vars : VarEnv) (ds : Str) (hne : ds ≠ []) (hall : ds.all isDigitC = true) :
+    tokenize vars ds = .ok (.int (digitsVal ds)) := tokenize_digits vars ds hne hall
 
 end Duckling.Props.C04
